@@ -106,6 +106,24 @@ theorem C10_stable (s : St) (db : DB) (g : GDir) (hdb : s.db = some db) (hinv : 
   cases e1
   exact ⟨v, e3, e4, e5⟩
 
+/-- **C10_files_append_only** (the reason, as a statement of its own): along every history the
+    handle keeps its directory, its active id never decreases, every data file that existed when the
+    snapshot was taken still exists and is its old content followed by whole appended frames — and
+    the *older* files (id below the active id at snapshot time), which `getValueByPosition` reads
+    after releasing `db.mu`, are byte-identical for ever. -/
+theorem C10_files_append_only (s : St) (db : DB) (g : GDir) (hdb : s.db = some db) (hinv : Inv s db g)
+    (hist : List HOp) :
+    ∃ db', (hrun s hist).db = some db' ∧ db'.dir = db.dir ∧ db.activeId ≤ db'.activeId ∧
+      ∀ id f, getFile (dirOf s db).data id = some f →
+        ∃ f', getFile (dirOf (hrun s hist) db').data id = some f' ∧
+          (∃ ds : List ByteArray, f'.bytes = appendAll Engine.C f.bytes ds) ∧
+          (id < db.activeId → f'.bytes = f.bytes) := by
+  obtain ⟨db', hdb', hdir, hle, hadv⟩ := Step_hrun hist s db hdb
+  obtain ⟨_, hext⟩ := hadv (Top_of_Files hinv.files)
+  refine ⟨db', hdb', hdir, hle, fun id f hf => ?_⟩
+  obtain ⟨f', h1, ⟨ds, _, h2⟩, h3⟩ := hext id f hf
+  exact ⟨f', h1, ⟨ds, h2⟩, h3⟩
+
 /-- **C10_fold_stable**.  A `Fold` (or any loop over `ListKeys` + reads through the snapshot) whose
     index snapshot was taken in state `s` and whose reads happen after the history sees exactly
     `fold s db`, the creation-time mapping. -/
